@@ -589,26 +589,37 @@ class Checker:
                 return None
         return None
 
-    def _unify(self, pat, t, names, eq):
+    def _unify(self, pat, t, names, eq, low=None, up=None):
+        """pattern variable against a type: plain type -> equality; `in X` -> lower bound X;
+        `out X` -> upper bound X (C<T> <: C<in X> iff X <: T; C<T> <: C<out X> iff T <: X)."""
         if pat[0] == 'v' and pat[1] in names:
             if t[0] == 'w':
                 if t[2] is not None:
-                    eq[pat[1]].append(t[2])
+                    tgt = (low if t[1] == CON else up)
+                    (tgt if tgt is not None else eq)[pat[1]].append(t[2])
             elif t[0] not in terms.UNJUDGED_KINDS:
                 eq[pat[1]].append(t)
             return
         if pat[0] == 'c' and t[0] == 'c' and pat[1] == t[1] and len(pat[2]) == len(t[2]):
             for a, b in zip(pat[2], t[2]):
-                self._unify(a, b, names, eq)
+                self._unify(a, b, names, eq, low, up)
         elif pat[0] == 'w' and pat[2] is not None:
             if t[0] == 'w' and t[2] is not None and t[1] == pat[1]:
                 self._unify(pat[2], t[2], names, eq)
+
+    def _join(self, cands):
+        """the candidate every other candidate is assignable to, or None."""
+        for c in cands:
+            if all(o == c or self.assignable(o, c) is True for o in cands):
+                return c
+        return None
 
     def _solve(self, tparams, pairs, ret, want, env, contextless, node, what):
         names = [str(p.name) for p in tparams]
         nameset = set(names)
         eq = {n: [] for n in names}
         low = {n: [] for n in names}
+        up = {n: [] for n in names}
         incomplete = None
         if want is not None:
             w = want
@@ -617,7 +628,7 @@ class Checker:
             if w[0] == 'c' and ret[0] == 'c':
                 sup = self._up_to(ret, w[1])
                 if sup is not None:
-                    self._unify(sup, w, nameset, eq)
+                    self._unify(sup, w, nameset, eq, low, up)
             elif ret[0] == 'v' and ret[1] in nameset and w[0] in ('c', 'b', 'v'):
                 eq[ret[1]].append(w)
         for pat, arg in pairs:
@@ -654,7 +665,8 @@ class Checker:
         m = {}
         later = []
         for n, p in zip(names, tparams):
-            if not eq[n] and not low[n] and p.bound is not None and (terms.free_vars(self.t(p.bound)) & nameset):
+            if not eq[n] and not low[n] and not up[n] and p.bound is not None and (
+                    terms.free_vars(self.t(p.bound)) & nameset):
                 # `class A<T1, T2 : T1>`: the tool's documented model of the compilers -- T2 is inferred
                 # once the parameters its bound mentions are known
                 later.append((n, p))
@@ -664,9 +676,12 @@ class Checker:
                     raise Unk('conflicting-equalities')
                 m[n] = eq[n][0]
             elif low[n]:
-                if any(c != low[n][0] for c in low[n]):
+                j = self._join(low[n])
+                if j is None:
                     raise Unk('join-needed')
-                m[n] = low[n][0]
+                m[n] = j
+            elif up[n]:
+                m[n] = up[n][0]
             elif incomplete:
                 raise Unk(incomplete)
             elif contextless:
